@@ -307,8 +307,18 @@ static void gate_connect(const char *sock) {
   struct sockaddr_un sa;
   memset(&sa, 0, sizeof sa);
   sa.sun_family = AF_UNIX;
-  snprintf(sa.sun_path, sizeof sa.sun_path, "%s", sock);
-  if (syscall(SYS_connect, fd, &sa, sizeof sa) != 0) die_msg("fsmon: gate connect\n");
+  socklen_t alen = sizeof sa;
+  if (sock[0] == '@') {
+    /* abstract socket: no file-system path, no length limit problems with deep work directories */
+    size_t n = strlen(sock + 1);
+    if (n > sizeof sa.sun_path - 2) n = sizeof sa.sun_path - 2;
+    sa.sun_path[0] = 0;
+    memcpy(sa.sun_path + 1, sock + 1, n);
+    alen = (socklen_t)(__builtin_offsetof(struct sockaddr_un, sun_path) + 1 + n);
+  } else {
+    snprintf(sa.sun_path, sizeof sa.sun_path, "%s", sock);
+  }
+  if (syscall(SYS_connect, fd, &sa, alen) != 0) die_msg("fsmon: gate connect\n");
   int hi = (int)syscall(SYS_fcntl, fd, F_DUPFD_CLOEXEC, 1001);
   if (hi >= 0) { syscall(SYS_close, fd); fd = hi; }
   g_gatefd = fd;
